@@ -17,7 +17,7 @@ using Gudhi::persistence_matrix::Column_types;
 // FL: 0 base, 1 boundary-only(+barcode), 2 RU, 3 chain
 // IDX: 0 container, 1 position, 2 identifier indexing (cells are inserted without explicit ids, so the three coincide as numbers
 // and the same driver applies; the overlays Position_to_index_overlay / Id_to_index_overlay carry their own copy/move/swap code)
-template <int FL, Column_types CT, bool Z2, int RA, bool MAPC, bool REM, bool VINE, bool REP, bool COMP, int IDX = 0>
+template <int FL, Column_types CT, bool Z2, int RA, bool MAPC, bool REM, bool VINE, bool REP, bool COMP, int IDX = 0, bool RR = false>
 struct Opt {
   using Field_coeff_operators = Gudhi::persistence_fields::Zp_field_operators<>;
   using Index = unsigned int;
@@ -34,7 +34,7 @@ struct Opt {
   static const bool has_column_compression = COMP;
   static const bool has_row_access = (RA != 0);
   static const bool has_intrusive_rows = (RA != 2);
-  static const bool has_removable_rows = false;
+  static const bool has_removable_rows = RR;
   static const bool has_removable_columns = REM;
   static const bool has_map_column_container = MAPC;
   static const bool has_column_and_row_swaps = false;
@@ -71,19 +71,89 @@ struct Driver {
   using M = Gudhi::persistence_matrix::Matrix<O>;
   static constexpr unsigned P = O::is_z2 ? 2 : 5;
 
-  static std::unique_ptr<M> fresh() {
+  static std::unique_ptr<M> fresh(unsigned p = P) {
     if constexpr (O::is_z2) return std::make_unique<M>();
-    else return std::make_unique<M>(0u, P);
+    else return std::make_unique<M>(0u, p);
   }
-  static void insert_cell(M& m, const oracle::Cell& cell) {
+  static std::vector<unsigned> z2_boundary(const oracle::Cell& cell) {
+    std::vector<unsigned> b; for (auto& fc : cell.bdry) b.push_back((unsigned)fc.first);
+    return b;
+  }
+  static std::vector<std::pair<unsigned, unsigned>> zp_boundary(const oracle::Cell& cell, unsigned p) {
+    std::vector<std::pair<unsigned, unsigned>> b;
+    for (auto& fc : cell.bdry) b.emplace_back((unsigned)fc.first, (unsigned)oracle::mod_norm(fc.second, p));
+    return b;
+  }
+  static void insert_cell(M& m, const oracle::Cell& cell, unsigned p = P) {
     if constexpr (O::is_z2) {
-      std::vector<unsigned> b; for (auto& fc : cell.bdry) b.push_back((unsigned)fc.first);
+      auto b = z2_boundary(cell);
       if constexpr (O::flavour == 0) m.insert_column(b); else m.insert_boundary(b, cell.dim);
     } else {
-      std::vector<std::pair<unsigned, unsigned>> b;
-      for (auto& fc : cell.bdry) b.emplace_back((unsigned)fc.first, (unsigned)oracle::mod_norm(fc.second, P));
+      auto b = zp_boundary(cell, p);
       if constexpr (O::flavour == 0) m.insert_column(b); else m.insert_boundary(b, cell.dim);
     }
+  }
+  // The three documented routes to a matrix holding the first k cells: default constructor + insertions, the constructor
+  // reserving space for n >= k columns + insertions, the constructor taking the k columns at once.
+  static const char* ctor_name(int mode) { static const char* n[] = {"default", "reserve", "batch"}; return n[mode]; }
+  static std::unique_ptr<M> build(vh::Case& c, const Cells& cs, size_t k, int mode, unsigned p = P) {
+    std::unique_ptr<M> m;
+    if (mode == 0) {
+      m = fresh(p);
+      for (size_t i = 0; i < k; ++i) insert_cell(*m, cs.cells[i], p);
+    } else if (mode == 1) {
+      unsigned n = (unsigned)(k + c.rng.below(5));
+      if constexpr (O::is_z2) m = std::make_unique<M>(n); else m = std::make_unique<M>(n, p);
+      for (size_t i = 0; i < k; ++i) insert_cell(*m, cs.cells[i], p);
+    } else {
+      if constexpr (O::is_z2) {
+        std::vector<std::vector<unsigned>> cols;
+        for (size_t i = 0; i < k; ++i) cols.push_back(z2_boundary(cs.cells[i]));
+        m = std::make_unique<M>(cols);
+      } else {
+        std::vector<std::vector<std::pair<unsigned, unsigned>>> cols;
+        for (size_t i = 0; i < k; ++i) cols.push_back(zp_boundary(cs.cells[i], p));
+        m = std::make_unique<M>(cols, p);
+      }
+    }
+    return m;
+  }
+  // Base matrices: a general column operation chosen from what the matrix shows (no model of the content is needed: C15 compares
+  // objects with each other).  `seed` makes the choice reproducible so that the same operation can be applied to two objects.
+  static std::string base_op(M& m, unsigned nrows, uint64_t seed, unsigned p = P) {
+    vh::Rng q(seed);
+    unsigned n = m.get_number_of_columns();
+    if (n == 0) return "none";
+    unsigned col = (unsigned)q.below(n);
+    unsigned kind = (unsigned)q.below(O::has_removable_rows ? 7 : 4);
+    if (kind >= 4) kind = 0;                                // removable rows: zero_entry half of the time
+    if (O::has_column_compression && kind < 2) kind += 2;   // zero_entry / zero_column are not offered with compression
+    if (kind >= 2 && n < 2) { if (O::has_column_compression) return "none"; kind = 1; }
+    std::ostringstream o;
+    if (kind == 0) {
+      if constexpr (!O::has_column_compression) {
+        auto content = m.get_column(col).get_content((int)nrows);
+        std::vector<unsigned> nz; unsigned used = 0;
+        for (unsigned rr = 0; rr < content.size(); ++rr) if (content[rr] != 0) { nz.push_back(rr); used = rr + 1; }
+        if (nz.empty()) return "none";
+        unsigned row = q.chance(1, 5) ? (unsigned)q.below(used) : nz[q.below(nz.size())];   // mostly a present entry, else any row below the column's last
+        if constexpr (O::has_row_access && O::has_removable_rows) {
+          // rows in a map: prefer the only entry of a row half of the time (the row stays, empty, until erase_empty_row)
+          std::vector<std::pair<unsigned, unsigned>> single;
+          for (unsigned rr = 0; rr < nrows; ++rr) { try { auto& rw = m.get_row(rr); if (rw.size() == 1) single.emplace_back(rw.begin()->get_column_index(), rr); } catch (const std::out_of_range&) {} }
+          if (!single.empty() && q.chance(1, 2)) { auto pr = single[q.below(single.size())]; col = pr.first; row = pr.second; }
+        }
+        o << "zero_entry(" << col << "," << row << ")";
+        m.zero_entry(col, row);
+      }
+    } else if (kind == 1) {
+      if constexpr (!O::has_column_compression) { o << "zero_column(" << col << ")"; m.zero_column(col); }
+    } else {
+      unsigned src = (unsigned)q.below(n - 1); if (src >= col) ++src;
+      if (O::is_z2 || kind == 2) { o << "add_to(" << src << "," << col << ")"; m.add_to(src, col); }
+      else { unsigned coef = 1 + (unsigned)q.below(p - 1); o << "multiply_target_and_add_to(" << src << "," << coef << "," << col << ")"; m.multiply_target_and_add_to(src, coef, col); }
+    }
+    return o.str();
   }
   // everything observable without modifying the matrix (boundary-only flavour: barcode excluded, it reduces in place)
   static std::string dump(M& m, unsigned nrows) {
@@ -110,13 +180,18 @@ struct Driver {
       o << "bars:";
       for (auto& b : bars) o << "(" << std::get<0>(b) << ";" << std::get<1>(b) << "," << std::get<2>(b) << ")";
     }
-    if constexpr (O::has_row_access && O::flavour == 0) {
+    if constexpr (O::has_row_access && O::flavour != 1) {
+      // vector of rows: only the rows up to the largest row index in use certainly exist (chain matrices: one row per cell);
+      // map of rows (removable rows): every index can be asked for, an absent row is announced by std::out_of_range
+      unsigned upto = O::has_removable_rows ? nrows : (O::flavour == 3 ? n : rows_used);
       o << "rows:";
-      for (unsigned rr = 0; rr < rows_used; ++rr) {
-        std::vector<std::pair<unsigned, unsigned>> es;
-        try { for (auto& e : m.get_row(rr)) { unsigned val = 1; if constexpr (!O::is_z2) val = e.get_element(); es.emplace_back(e.get_column_index(), val); } } catch (const std::exception&) { es.emplace_back(9999, 0); }
+      for (unsigned rr = 0; rr < upto; ++rr) {
+        std::vector<std::pair<unsigned, unsigned>> es; bool absent = false;
+        try { for (auto& e : m.get_row(rr)) { unsigned val = 1; if constexpr (!O::is_z2) val = e.get_element(); es.emplace_back(e.get_column_index(), val); } }
+        catch (const std::out_of_range&) { absent = true; }
         std::sort(es.begin(), es.end());
-        o << "r" << rr << ":"; for (auto& e : es) o << e.first << "=" << e.second << ",";
+        o << "r" << rr << ":"; if (absent) o << "absent"; for (auto& e : es) o << e.first << "=" << e.second << ",";
+        o << ";";
       }
     }
     return o.str();
@@ -147,19 +222,46 @@ struct Driver {
     const size_t N = cs.cells.size();
     const unsigned R = (unsigned)N + 1;
     size_t k = r.below(N + 1);
-    auto A = fresh();
-    for (size_t i = 0; i < k; ++i) insert_cell(*A, cs.cells[i]);
+    // construction routes of source and target; target of the assignments / swap over another field half of the time
+    const int modeA = (int)r.below(3), modeB = (int)r.below(3);
+    const unsigned PB = O::is_z2 ? 2u : (r.chance(1, 2) ? 7u : P);
+    // source states beyond "k cells inserted": removable columns: more cells inserted, the surplus removed again;
+    // base matrices: general column operations (they leave zero columns, empty rows, merged / split compression classes)
+    size_t extra = 0;
+    // (not for chain matrices with vine updates: they do not reuse the identifier of a removed cell, and the harness inserts
+    // the remaining cells without explicit identifiers)
+    static constexpr bool can_rebuild = O::has_removable_columns && O::flavour >= 2 && !(O::flavour == 3 && O::has_vine_update);
+    if constexpr (can_rebuild) { if (r.chance(1, 3)) extra = std::min<size_t>(N - k, 1 + r.below(2)); }
+    auto A = build(c, cs, k + extra, modeA);
+    if constexpr (can_rebuild) { for (size_t i = 0; i < extra; ++i) A->remove_last(); }
+    if (extra) c.count("state.matrix_source_after_remove_last");
+    bool src_ops = false;
+    if constexpr (O::flavour == 0) {
+      int nops = r.chance(1, 3) ? 0 : 1 + (int)r.below(4);
+      for (int t = 0; t < nops; ++t) { std::string d = base_op(*A, R, r.next()); c.log("[source] " + d); if (d != "none") { src_ops = true; c.count("op.matrix_source_column_op"); } }
+    }
     // target for assignments: empty, or built from another complex
     Cells cs2 = random_cells(r);
-    auto B = fresh();
     int bkind = (int)r.below(3);
-    if (bkind) for (size_t i = 0; i < (bkind == 1 ? std::min<size_t>(3, cs2.cells.size()) : cs2.cells.size()); ++i) insert_cell(*B, cs2.cells[i]);
-    static const char* names[] = {"copy_ctor", "copy_assign", "self_assign", "move_ctor", "move_assign", "swap"};
-    int sc = (int)r.below(6);
-    std::string sig = "opts=" + name + ",scenario=" + names[sc] + (k == 0 ? ",src_empty" : "") + (bkind == 0 ? ",dst_empty" : "");
-    c.log("matrix " + sig + " cells=" + vh::str(N) + " prefix=" + vh::str(k));
-    c.count(std::string("matrix.scenario.") + names[sc]);
+    const size_t kb = bkind == 0 ? 0 : bkind == 1 ? std::min<size_t>(3, cs2.cells.size()) : cs2.cells.size();
+    auto B = build(c, cs2, kb, modeB, PB);
+    static const char* names[] = {"copy_ctor", "copy_assign", "self_assign", "move_ctor", "move_assign", "swap", "self_move_assign", "self_swap"};
+    int sc = (int)r.below(8);
+    const bool uses_target = sc == 1 || sc == 4 || sc == 5;
     const std::string dA = dump(*A, R), dB = dump(*B, R);
+    bool empty_row = false;   // a row that exists and is empty (tellable from an absent one only with removable rows)
+    if constexpr (O::has_row_access && O::has_removable_rows) { size_t rp = dA.find("rows:"); empty_row = rp != std::string::npos && dA.find(":;", rp) != std::string::npos; }
+    std::string sig = "opts=" + name + ",scenario=" + names[sc] + (modeA ? std::string(",src_ctor=") + ctor_name(modeA) : "") +
+                      (uses_target && modeB ? std::string(",dst_ctor=") + ctor_name(modeB) : "") + (uses_target && PB != P ? ",dst_other_characteristic" : "") +
+                      (k == 0 ? ",src_empty" : "") + (bkind == 0 ? ",dst_empty" : "") + (extra ? ",src_after_remove_last" : "") + (src_ops ? ",src_column_ops" : "") +
+                      (empty_row ? ",src_has_empty_row" : "");
+    c.log("matrix " + sig + " cells=" + vh::str(N) + " prefix=" + vh::str(k) + " target: " + ctor_name(modeB) + " over Z" + vh::str(PB) + " with " + vh::str(kb) + " cells");
+    c.count(std::string("matrix.scenario.") + names[sc]);
+    c.count(std::string("matrix.src_ctor.") + ctor_name(modeA));
+    if (uses_target) c.count(std::string("matrix.dst_ctor.") + ctor_name(modeB));
+    if (uses_target && PB != P) c.count("matrix.dst_other_characteristic");
+    if (empty_row) c.count("state.matrix_source_has_empty_row");
+    if (dA.find("rows:") != std::string::npos) c.count("cmp.matrix_rows");
     std::unique_ptr<M> X, Y;  // X: the object that should now show A's content; Y: the other one
     std::string dY_expected; bool y_is_source_copy = false;
     switch (sc) {
@@ -169,6 +271,8 @@ struct Driver {
       case 3: X = std::make_unique<M>(std::move(*A)); Y = std::move(A); dY_expected = ""; break;
       case 4: *B = std::move(*A); X = std::move(B); Y = std::move(A); dY_expected = ""; break;
       case 5: { using std::swap; swap(*A, *B); X = std::move(B); Y = std::move(A); dY_expected = dB; break; }
+      case 6: { M& ref = *A; *A = std::move(ref); X = std::move(A); Y = fresh(); dY_expected = dump(*Y, R); break; }
+      case 7: { using std::swap; M& ref = *A; swap(*A, ref); X = std::move(A); Y = fresh(); dY_expected = dump(*Y, R); break; }
     }
     c.count("cmp.matrix_dump");
     if (dump(*X, R) != dA) { c.violation("matrix.copy.dump", sig, "object does not show the source's content after the operation:\n got " + dump(*X, R).substr(0, 400) + "\nwant " + dA.substr(0, 400)); return; }
@@ -197,6 +301,15 @@ struct Driver {
         // now mutate the source the same way: both must agree again
         for (size_t i = k; i < N; ++i) insert_cell(*Y, cs.cells[i]);
         if (dump(*Y, R) != dump(*X, R)) { c.violation("matrix.copy.diverges", sig, "source and copy driven through the same suffix differ"); return; }
+        if constexpr (O::flavour == 0) {
+          // the same column operations on the copy, then on the source: the source must not move meanwhile, then both agree
+          std::vector<uint64_t> seeds(1 + r.below(4)); for (auto& sd : seeds) sd = r.next();
+          const std::string before = dump(*Y, R);
+          for (uint64_t sd : seeds) { c.log("[copy] " + base_op(*X, R, sd)); c.count("op.matrix_divergent_column_op"); }
+          if (dump(*Y, R) != before) { c.violation("matrix.independence.after_mutating_other", sig + ",op=column_ops", "source changed when column operations were applied to the copy:" + first_diff(dump(*Y, R), before)); return; }
+          for (uint64_t sd : seeds) c.log("[source] " + base_op(*Y, R, sd));
+          if (dump(*Y, R) != dump(*X, R)) { c.violation("matrix.copy.diverges", sig + ",op=column_ops", "source and copy driven through the same column operations differ:" + first_diff(dump(*Y, R), dump(*X, R))); return; }
+        }
         if constexpr (O::has_removable_columns && O::flavour >= 2) {
           size_t rm = 1 + r.below(std::min<size_t>(3, N));
           if (N >= rm) {
